@@ -340,6 +340,15 @@ func legacyWritesSSA(c *Ctx, p *packages.Package, fn *ssa.Function) *tbLegacyWri
 				if sl, ok := x.Call.Args[1].(*ssa.Slice); ok {
 					if arr, ok := sl.X.(*ssa.Alloc); ok {
 						for _, el := range storesIntoOrdered(arr) {
+							// a whole token that is a named constant (the interface version), appended instead of listed in
+							// the initial literal
+							if s, isK := strConst(el); isK {
+								if k := constByValue(p, s); k != nil {
+									out.elemConsts = append(out.elemConsts, k)
+									out.elemPos = x.Pos()
+									continue
+								}
+							}
 							elems = append(elems, el)
 							if el != nil {
 								elemSite[el] = x
@@ -394,6 +403,11 @@ func legacyWritesSSA(c *Ctx, p *packages.Package, fn *ssa.Function) *tbLegacyWri
 			}
 		case *ssa.Const:
 			// nil slice
+		case *ssa.MakeSlice:
+			// make([]string, 0, n): an empty list with room
+			if k, isK := intConst(x.Len); !isK || k != 0 {
+				out.problems = append(out.problems, "the argument list starts from make([]string, n) with n != 0 at "+w.Pos(x.Pos())+": n empty arguments")
+			}
 		default:
 			out.problems = append(out.problems, fmt.Sprintf("the argument list flows from an unsupported value (%T) at %s", v, w.Pos(v.Pos())))
 		}
@@ -666,7 +680,7 @@ func readSourceEnv(w *World, root *ssa.Function, v ssa.Value, env *strEnv, depth
 		if x.Op == token.MUL {
 			if ia, ok := x.X.(*ssa.IndexAddr); ok {
 				if i, isK := intConst(ia.Index); isK {
-					if sp, ok := w.canon(root, ia.X).(*ssa.Call); ok && calleeName(sp) == "strings.Split" {
+					if sp, ok := w.canon(root, ia.X).(*ssa.Call); ok && splitsAll(sp) {
 						if sep, ok := constStr(sp.Call.Args[1]); ok {
 							if s, ok := readSourceEnv(w, root, sp.Call.Args[0], env, depth+1); ok && s.part < 0 {
 								s.part, s.sep = int(i), sep
@@ -877,7 +891,7 @@ func legacyReadsSSA(c *Ctx, p *packages.Package, fn *ssa.Function, attrs *types.
 				if !isK || la == nil {
 					continue
 				}
-				if sp, ok := w.canon(fn, la).(*ssa.Call); ok && calleeName(sp) == "strings.Split" {
+				if sp, ok := w.canon(fn, la).(*ssa.Call); ok && splitsAll(sp) && (calleeName(sp) == "strings.Split" || splitNCount(sp) < 0 || splitNCount(sp) > n) {
 					if s, ok := readSource(w, fn, sp.Call.Args[0], 0); ok {
 						r.lenChecks[s.key] = n
 					}
@@ -976,4 +990,27 @@ func (e *legacyEval) fieldMentionsEnv(v ssa.Value, env *strEnv, depth int) []str
 		out = append(out, e.fieldMentionsEnv(x.X, env, depth+1)...)
 	}
 	return out
+}
+
+// splitsAll: strings.Split(v, sep), or strings.SplitN(v, sep, n) with a count that leaves the first two parts what
+// Split makes them (n >= 3 or negative); with a test len(parts) == k, k < n, the accepted values and their parts are
+// the same as with Split.
+func splitsAll(sp *ssa.Call) bool {
+	switch calleeName(sp) {
+	case "strings.Split":
+		return len(sp.Call.Args) == 2
+	case "strings.SplitN":
+		n := splitNCount(sp)
+		return len(sp.Call.Args) == 3 && (n < 0 || n >= 3)
+	}
+	return false
+}
+
+func splitNCount(sp *ssa.Call) int64 {
+	if len(sp.Call.Args) == 3 {
+		if n, isK := intConst(sp.Call.Args[2]); isK {
+			return n
+		}
+	}
+	return 0
 }
